@@ -216,10 +216,12 @@ def random_instance(rnd):
     # in a quarter of the instances, a haplotype set with a repeated row (alleles that differ only outside the SNVs:
     # the model counts copies by allele index, as the exact posterior does)
     P = rnd.choice([1, 2, 3, 4, 4, 5, 6])
+    if rnd.random() < 0.07:
+        P = rnd.choice([130, 140, 160])      # pooled samples: more than 127 copies of one allele in the genotype
     dup = rnd.random() < 0.25
     while True:
-        K = rnd.randint(2, 5)
-        N = rnd.randint(1, 4)
+        K = rnd.randint(2, 5) if P < 100 else rnd.randint(2, 3)
+        N = rnd.randint(1, 4) if P < 100 else rnd.randint(1, 2)
         A = [rnd.randint(2, 3) for _ in range(N)]
         H = [[rnd.randrange(A[j]) for j in range(N)] for _ in range(K)]
         if dup and K >= 3:
@@ -463,7 +465,12 @@ def main():
     for _ in range(n_rand):
         inst = random_instance(rnd)
         a0 = sorted(rnd.randrange(inst["K"]) for _ in range(inst["P"]))
-        tj.append({"inst": inst, "a0": a0, "kind": rnd.choice(["gibbs", "mh"]), "n_steps": steps, "seed": rnd.randrange(2**31)})
+        big = inst["P"] > 100
+        if big:
+            a0 = [0] * (inst["P"] - 2) + [inst["K"] - 1] * 2
+            if inst["Fn"] == 0:
+                inst["Fn"] = 3
+        tj.append({"inst": inst, "a0": a0, "kind": "gibbs" if big else rnd.choice(["gibbs", "mh"]), "n_steps": 1 if big else steps, "seed": rnd.randrange(2**31)})
     res = pool.map_tasks("impl.c02", [{"op": "sampler_trace", "jobs": tj[i : i + 10]} for i in range(0, len(tj), 10)], mode="py")
     cases = []
     for rr in res:
